@@ -105,20 +105,29 @@ type State struct {
 	depth  int
 	dead   bool
 	locks  []*Term // regions of objects whose mutex was locked on this path
+	// regions: region-valued terms known (by an assumed alloc fact) to be allocated on this path;
+	// a region allocated later is different from each of them.
+	regions   []*Term
+	regionSet map[string]bool
 }
 
 func (s *State) clone() *State {
 	n := &State{
-		hyps:   append([]*Term(nil), s.hyps...),
-		hypSet: make(map[string]bool, len(s.hypSet)),
-		heap:   s.heap.clone(),
-		old:    s.old,
-		top:    s.top.clone(),
-		ghost:  make(map[string]*Term, len(s.ghost)),
-		oldGh:  s.oldGh,
-		trace:  append([]string(nil), s.trace...),
-		depth:  s.depth,
-		locks:  append([]*Term(nil), s.locks...),
+		hyps:      append([]*Term(nil), s.hyps...),
+		hypSet:    make(map[string]bool, len(s.hypSet)),
+		heap:      s.heap.clone(),
+		old:       s.old,
+		top:       s.top.clone(),
+		ghost:     make(map[string]*Term, len(s.ghost)),
+		oldGh:     s.oldGh,
+		trace:     append([]string(nil), s.trace...),
+		depth:     s.depth,
+		locks:     append([]*Term(nil), s.locks...),
+		regions:   append([]*Term(nil), s.regions...),
+		regionSet: make(map[string]bool, len(s.regionSet)),
+	}
+	for k := range s.regionSet {
+		n.regionSet[k] = true
 	}
 	for k := range s.hypSet {
 		n.hypSet[k] = true
@@ -169,6 +178,9 @@ func (s *State) assumeLeafFacts(l leaf, x *Term, h *Heap) {
 		if !x.IsInt() {
 			s.assume(Ge(x, Int(0)))
 			s.assume(Select(h.alloc, x))
+			if h == s.heap {
+				s.noteRegion(x)
+			}
 		}
 	case strings.HasSuffix(l.path, "$o"), strings.HasSuffix(l.path, "$l"):
 		if !x.IsInt() {
@@ -310,10 +322,29 @@ func (s *State) store(p Ptr, v Value) {
 }
 
 // allocRegion returns a fresh, non-nil, previously unallocated region id.
+func (s *State) noteRegion(x *Term) {
+	if s.regionSet == nil {
+		s.regionSet = map[string]bool{}
+	}
+	k := x.String()
+	if s.regionSet[k] || len(s.regions) >= 60 {
+		return
+	}
+	s.regionSet[k] = true
+	s.regions = append(s.regions, x)
+}
+
 func (s *State) allocRegion(hint string) *Term {
 	r := Sym(fresh("fresh."+hint), SInt)
 	s.assume(Gt(r, Int(0)))
 	s.assume(Not(Select(s.heap.alloc, r)))
+	// the new region differs from every region already known to be allocated on this path
+	for _, t := range s.regions {
+		if !isFreshSym(t) {
+			s.assume(Ne(r, t))
+		}
+	}
+	s.noteRegion(r)
 	if s.old != nil && s.old.alloc != s.heap.alloc {
 		// also unallocated at entry (monotone allocation), stated explicitly to spare the solver
 		s.assume(Not(Select(s.old.alloc, r)))
